@@ -70,6 +70,7 @@ func runC12(p *Prog, r *Report) {
 	loops := RangeLoops(fn)
 	// the enabled loop: the one that stores to the offset field
 	var main, disabled *RangeLoop
+	mixed := false
 	disabledFn := fn
 	classify := func(host *ssa.Function, l *RangeLoop) (hasOffset, hasShift bool) {
 		Instrs(host, func(in ssa.Instruction) {
@@ -162,6 +163,43 @@ func runC12(p *Prog, r *Report) {
 					disabledFn = h
 				}
 			}
+		}
+	}
+	if main != nil {
+		// mixed form: the loop carries a local copy of a state field (a header phi seeded from the
+		// field) and also assigns that field inside the loop.  The assignment is invisible to the
+		// copy the samples are computed from, and the write-back after the loop overwrites it.
+		for _, in := range main.Header.Instrs {
+			ph, ok := in.(*ssa.Phi)
+			if !ok || ph == main.Phi {
+				continue
+			}
+			for i, e := range ph.Edges {
+				if main.Header.Dominates(main.Header.Preds[i]) {
+					continue
+				}
+				f := puField(stripConv(e))
+				if f == "" {
+					continue
+				}
+				for _, st := range StoresTo(fn, puT, f) {
+					if !main.Contains(st.Block()) {
+						continue
+					}
+					writtenBack := false
+					for _, st2 := range StoresTo(fn, puT, f) {
+						if !main.Contains(st2.Block()) && InstrReaches(st, st2) {
+							writtenBack = true
+						}
+					}
+					r.Bad("C12.R1", "the unwrapping loop keeps "+f+" in one place", p.InstrPos(st),
+						"the loop computes the samples from a local copy of "+f+" (seeded from the unwrapper before the loop"+map[bool]string{true: " and stored back after it", false: ""}[writtenBack]+") but this statement inside the loop assigns the field itself: the copy in use does not see it, "+map[bool]string{true: "and the write-back after the loop overwrites it, ", false: ""}[writtenBack]+"so the change (the return to the home offset after the configured number of samples away) never takes effect")
+					mixed = true
+				}
+			}
+		}
+		if mixed {
+			main = nil
 		}
 	}
 	if main == nil {
